@@ -86,7 +86,8 @@ class Check:
         n = len(records)
         if shard is None:
             shard = max(200, (n + NCPU - 1) // NCPU)
-        shards = [records[i:i + shard] for i in range(0, n, shard)]
+        nsh = (n + shard - 1) // shard
+        shards = [records[k::nsh] for k in range(nsh)]      # interleaved: balances expensive records
         scratch = tempfile.mkdtemp(prefix='yv_obs_')
         verdicts = {}
         try:
